@@ -8,7 +8,7 @@
    membership change) is proved on the abstract protocol in coq/RaftAbs by the raftabs group.
 
    The abstract-protocol theorems (coq/RaftAbs) are stated at the end of this file. *)
-From ZV Require Import Raft.Consts Raft.Model Raft.Proofs.
+From ZV Require Import Raft.Consts Raft.Model Raft.Proofs Raft.Core Raft.ProofsCore.
 From Coq Require Import List NArith.
 Import ListNotations.
 Open Scope N_scope.
@@ -54,6 +54,63 @@ Theorem C01_grant_needs_up_to_date : forall l vote lead from pv mterm term utd,
   vote_decision l vote lead from pv mterm term utd = Some true -> utd = true /\ l = false.
 Proof. exact grant_needs_up_to_date. Qed.
 Print Assumptions C01_grant_needs_up_to_date.
+
+(* ---------------------------------------------------------------------------------------- *)
+(* Theorems (6)-(12) are about the transcription of raft.Step in coq/Raft/Core.v, which is compared with the Go
+   handlers case by case (pre-state + inputs -> post-state + Ready) on every run (raftsim -mode core). *)
+
+(* (6) Step on MsgVote/MsgPreVote after the term handling: a granting answer implies every clause of the rule —
+       the receiver is no learner; it already voted for the sender, or has neither a vote nor a leader, or the
+       request is a pre-vote for a future term; and the candidate's log is at least as up to date *)
+Theorem C01_step_vote_granted_rule : forall r m r' x,
+  step_vote r m = Ok r' -> In x (r_msgs r') -> ~ In x (r_msgs r) -> m_reject x = false ->
+  r_islearner r = false /\
+  (r_vote r = m_from m \/ (r_vote r = none_id /\ r_lead r = none_id) \/
+   (m_type m = msg_pre_vote /\ r_term r < m_term m)) /\
+  exists l0, l_is_up_to_date (r_log r) (m_index m) (m_logterm m) = Ok (true, l0).
+Proof. exact step_vote_granted_rule. Qed.
+Print Assumptions C01_step_vote_granted_rule.
+
+(* (7) the recorded Vote changes only through a granted MsgVote (never a pre-vote), to the sender, in the same
+       term, and only if no vote and no leader were recorded *)
+Theorem C01_step_vote_changes_vote_only_on_grant : forall r m r',
+  step_vote r m = Ok r' -> r_vote r' <> r_vote r ->
+  m_type m = msg_vote /\ r_vote r' = m_from m /\ r_term r' = r_term r /\
+  (r_vote r = none_id /\ r_lead r = none_id) /\
+  exists l0, l_is_up_to_date (r_log r) (m_index m) (m_logterm m) = Ok (true, l0).
+Proof. exact step_vote_changes_vote_only_on_grant. Qed.
+Print Assumptions C01_step_vote_changes_vote_only_on_grant.
+
+(* (8) reset (becomeFollower/becomeCandidate/becomeLeader) keeps Vote when the term does not change *)
+Theorem C01_reset_keeps_vote_same_term : forall r r', reset r (r_term r) = Ok r' ->
+  r_vote r' = r_vote r /\ r_term r' = r_term r.
+Proof. exact reset_keeps_vote_same_term. Qed.
+Print Assumptions C01_reset_keeps_vote_same_term.
+
+(* (9) a learner receiving a vote request of either kind, at any term: whatever Step emits is a rejection (the
+       stale-term pre-vote answer) or a MsgAppResp, and no vote for anybody is recorded *)
+Theorem C01_learner_never_grants : forall r m r',
+  r_islearner r = true -> (m_type m = msg_vote \/ m_type m = msg_pre_vote) -> step r m = Ok r' ->
+  (forall x, In x (r_msgs r') -> In x (r_msgs r) \/ m_reject x = true \/ m_type x = msg_app_resp) /\
+  (r_vote r' = r_vote r \/ r_vote r' = none_id).
+Proof. exact learner_never_grants. Qed.
+Print Assumptions C01_learner_never_grants.
+
+(* (10) a node that is not among the voters of its own configuration (a learner, a removed node) never
+        campaigns: hup — from the election timeout, MsgHup or MsgTimeoutNow — leaves the state untouched *)
+Theorem C01_non_voter_never_campaigns : forall r t, pl_get (r_id r) (r_prs r) = None -> hup r t = Ok r.
+Proof. exact (fun r t H => hup_not_promotable r t (learner_not_promotable r H)). Qed.
+Print Assumptions C01_non_voter_never_campaigns.
+
+(* (11) hup reads the entries in (applied, committed] without a size limit; if any of them is a configuration
+        change, it returns without campaigning (role, term, vote, outbox unchanged) *)
+Theorem C01_hup_refuses_pending_conf : forall r t ents l e,
+  l_slice (r_log r) (l_applied (r_log r) + 1) (committed r + 1) no_limit = Ok (ents, l) ->
+  l_applied l = l_applied (r_log r) -> l_committed l = l_committed (r_log r) ->
+  In e ents -> is_conf e = true -> l_applied (r_log r) < committed r ->
+  hup r t = Ok r \/ hup r t = Ok (upd_log r l).
+Proof. exact hup_refuses_pending_conf. Qed.
+Print Assumptions C01_hup_refuses_pending_conf.
 
 
 (* ====================================================================================== *)
@@ -167,3 +224,20 @@ Example C01_ex_vote : vote_decision false none_id none_id 2 false 5 5 true = Som
 Proof. vm_compute. repeat split. Qed.
 Example C01_ex_commit_index : commit_index [5; 3; 9] = Some 5 /\ commit_index [5; 3; 9; 1] = Some 3.
 Proof. vm_compute. split; reflexivity. Qed.
+(* Step on the concrete states of Raft/ProofsCore.v: voter 2 grants candidate 3 and records the vote; learner 2
+   stays silent; with the unapplied configuration change at index 2 hup does nothing, once applied it campaigns *)
+Example C01_ex_step_vote_grants :
+  match step (ex_node false 2) (ex_vote_req msg_vote 1) with
+  | Ok r' => r_vote r' = 3 /\ map m_reject (r_msgs r') = [false] /\ map m_type (r_msgs r') = [msg_vote_resp]
+  | _ => False end.
+Proof. vm_compute. repeat split. Qed.
+Example C01_ex_learner_silent :
+  match step (ex_node true 2) (ex_vote_req msg_vote 1) with
+  | Ok r' => r_vote r' = none_id /\ r_msgs r' = [] | _ => False end.
+Proof. vm_compute. repeat split. Qed.
+Example C01_ex_hup_pending_conf :
+  hup (ex_node false 1) CampElection = Ok (ex_node false 1) /\
+  match hup (ex_node false 2) CampElection with
+  | Ok r' => r_state r' = st_candidate /\ r_term r' = 2 /\ r_vote r' = 2 /\ map m_to (r_msgs r') = [1; 3]
+  | _ => False end.
+Proof. vm_compute. repeat split. Qed.
